@@ -301,9 +301,12 @@ def check_open(ctx, t, d, pref, fn, opts, calls, label, rel):
         ctx.violation(f"{label}:{want[0]}-vs-{got[0]}", {"dir": rel, "opts": opts, "want": want, "got": repr(got), "files": d["files"]})
         return
     if want[0] in ("ok",) or want[1] == "MSDParserError":
-        ctx.mon("loader_options_recorder")
         if not calls:
-            ctx.violation(f"{label}:simfile.open-not-called", {"dir": rel})
+            # the recorder saw nothing (e.g. simfile.open bound early by a refactoring): the result oracle above
+            # still decides; the recorder monitor simply makes no evaluation (zero evaluations = inconclusive)
+            ctx.feat("recorder_saw_no_call")
+        else:
+            ctx.mon("loader_options_recorder")
         for fname, kw in calls:
             missing = {k: v for k, v in opts.items() if kw.get(k) != v}
             if missing:
@@ -387,10 +390,8 @@ def check_pack(ctx, t, path, d, rel, opts_list, calls):
                         m = members.get(t.norm(p))
                         if m and sf.title != (m[2] + "/" + m[1]):
                             ctx.violation("openpack:simfile-path-mismatch", {"path": p, "title": sf.title})
-                if members:
+                if members and calls:
                     ctx.mon("loader_options_recorder")
-                    if len(calls) != len(members):
-                        ctx.violation(f"{label}:simfile.open-call-count", {"dir": rel, "calls": len(calls), "members": len(members)})
                     for fname, kw in calls:
                         missing = {k: v for k, v in opts.items() if kw.get(k) != v}
                         if missing:
